@@ -22,8 +22,11 @@ static const char *mname[] = { "tls12-session-id", "tls12-ticket", "tls13-psk", 
  * first flight (A) / after its ClientKeyExchange reached the server (B).  It then holds the session id the ServerHello
  * announced and a master secret: zeros, the value of a secret that was never derived (A), or the one it derived itself (B).
  * No session was ever established (no Finished verified, no client authenticated): the model says c1 holds nothing. */
-enum { O_F0 = 0, O_F1, O_R0, O_R1, O_R0E, O_STEAL, O_TICK, O_TICK2, O_FATAL0, O_EVICT, O_KADD, O_KDEL, O_ABAND_A, O_ABAND_B, O_NOP };
-static const char *oname[] = { "full(c0)", "full(c1)", "resume(c0)", "resume(c1)", "resume(c0,ems-off)", "steal(c1<-c0)", "tick(50000s)", "tick(100000s)", "fatal(c0)", "evict33", "addkey", "delkey", "abandon(c1,after-server-hello)", "abandon(c1,after-client-key-exchange)" };
+/* O_TICK25D / O_TICK50D: 25 days + 1 h and 2^32 ms + 60 s - beyond the ranges of a 32-bit millisecond difference.
+ * O_SIB_OPEN: c0 resumes on a SECOND connection that stays open; O_SIB_CLOSE: that connection is closed cleanly (while it
+ * was open the session may have been invalidated through another connection). */
+enum { O_F0 = 0, O_F1, O_R0, O_R1, O_R0E, O_STEAL, O_TICK, O_TICK2, O_FATAL0, O_EVICT, O_KADD, O_KDEL, O_ABAND_A, O_ABAND_B, O_TICK25D, O_TICK50D, O_SIB_OPEN, O_SIB_CLOSE, O_NOP };
+static const char *oname[] = { "full(c0)", "full(c1)", "resume(c0)", "resume(c1)", "resume(c0,ems-off)", "steal(c1<-c0)", "tick(50000s)", "tick(100000s)", "fatal(c0)", "evict33", "addkey", "delkey", "abandon(c1,after-server-hello)", "abandon(c1,after-client-key-exchange)", "tick(25d+1h)", "tick(2^32ms+60s)", "open-sibling(resume c0)", "close-sibling" };
 
 #define LIFETIME_MS (86400LL * 1000)
 #define LIFETIME13_MS (360LL * 1000)   /* TLS_1_3_TICKET_LIFETIME */
@@ -497,6 +500,81 @@ static void apply_op(hist_t *H, int op)
         b->cipherId = srv->cipher->ident;
         break;
     }
+    case O_TICK25D:
+        env_tick_ms(25LL * 86400 * 1000 + 3600 * 1000);
+        break;
+    case O_TICK50D:
+        env_tick_ms(4294967296LL + 60000);
+        break;
+    case O_SIB_OPEN:
+    {
+        world_t *w2 = &H->w2;
+        int r2 = 0;
+        if (!IS_ID(H->mode))
+        {
+            break;
+        }
+        if (H->w2_live)
+        {
+            world_free_sessions(w2);
+            H->w2_live = 0;
+        }
+        memset(w2, 0, sizeof(*w2));
+        w2->cfg = H->w.cfg;
+        w2->cfg.ems_off = 0;
+        w2->s[1].is_server = 1;
+        w2->s[0].keys = H->w.s[0].keys;
+        w2->s[1].keys = H->w.s[1].keys;
+        w2->sid = H->store[0];
+        buf_init(&w2->trace);
+        buf_init(&w2->s[0].delivered); buf_init(&w2->s[1].delivered);
+        buf_init(&w2->s[0].submitted); buf_init(&w2->s[1].submitted);
+        if (world_new_sessions(w2) < 0)
+        {
+            break;
+        }
+        H->w2_live = 2;
+        world_pump(w2, 200);
+        if (world_is_complete(w2, 0) && world_is_complete(w2, 1))
+        {
+            r2 |= 1;
+        }
+        if (w2->s[1].ssl && (w2->s[1].ssl->flags & SSL_FLAGS_RESUMED))
+        {
+            r2 |= 2;
+        }
+        if (w2->s[0].ssl && matrixSslIsResumedSession(w2->s[0].ssl) == PS_TRUE)
+        {
+            r2 |= 4;
+        }
+        memcpy(ssec, w2->s[1].ssl->sec.masterSecret, 48);
+        slen = 48;
+        judge_connect(H, 0, 0, r2, ssec, slen, "sibling");
+        if ((r2 & 1) && !(r2 & 2))
+        {
+            snapshot_client(H, 0, &H->held[0], 0);
+            H->held[0].ems = 1;
+        }
+        else if (!(r2 & 1))
+        {
+            H->held[0].invalidated = 1;
+            world_free_sessions(w2);
+            H->w2_live = 0;
+        }
+        break;
+    }
+    case O_SIB_CLOSE:
+        if (H->w2_live == 2)
+        {
+            world_t *w2 = &H->w2;
+            world_close(w2, 0);
+            world_pump(w2, 20);
+            world_close(w2, 1);
+            world_pump(w2, 20);
+            world_free_sessions(w2);
+            H->w2_live = 0;
+        }
+        break;
     case O_TICK:
         env_tick_ms(TICK_MS);
         break;
@@ -851,7 +929,7 @@ static void gen(int mode, int depth, int maxdepth, case_t *cur)
         {
             continue;
         }
-        if (!IS_ID(mode) && (op == O_EVICT || op == O_ABAND_A || op == O_ABAND_B))
+        if (!IS_ID(mode) && (op == O_EVICT || op == O_ABAND_A || op == O_ABAND_B || op == O_SIB_OPEN || op == O_SIB_CLOSE))
         {
             continue; /* the bounded cache plays no role for stateless tickets */
         }
@@ -999,6 +1077,28 @@ int main(int argc, char **argv)
                     for (k = 0; k < L; k++)
                     {
                         c.ops[1 + k] = sub[v % 4];
+                        v /= 4;
+                    }
+                    add_case(&c);
+                }
+            }
+        }
+        if (IS_ID(mode))
+        {
+            static const int sub2[4] = { O_FATAL0, O_SIB_CLOSE, O_R0, O_TICK };
+            int L, n, k, idx;
+            for (L = 1; L <= 3; L++)
+            {
+                for (n = 1, k = 0; k < L; k++) n *= 4;
+                for (idx = 0; idx < n; idx++)
+                {
+                    case_t c;
+                    int v = idx;
+                    memset(&c, 0, sizeof(c));
+                    c.mode = mode; c.edit = -1; c.depth = L + 2; c.ops[0] = O_F0; c.ops[1] = O_SIB_OPEN;
+                    for (k = 0; k < L; k++)
+                    {
+                        c.ops[2 + k] = sub2[v % 4];
                         v /= 4;
                     }
                     add_case(&c);
